@@ -305,11 +305,12 @@ def run_ensemble_maps(rng, obs):
         c = spec[1][j] if len(spec) > 1 and isinstance(spec[1], list) and len(spec[1]) > j and isinstance(spec[1][j], (int, float)) else 1.0
         box['hi'][j] = c - rng.choice([0.0, 0.5]); box['lo'][j] = box['hi'][j] - 4.0
     # the members' stop rule: history-based (NCOG) or, for simplex members, population-based (CRT looks at the vertices and their stored energies)
-    term_kind = rng.choice(['ncog', 'ncog', 'crt']) if nested == 'nm' else 'ncog'
-    ctol = rng.choice([1e-4, 1e-2])
+    # ... or a target (VTR) that some members already meet at their starting point while others still have to work for it
+    term_kind = rng.choice(['ncog', 'ncog', 'crt', 'vtr']) if nested == 'nm' else rng.choice(['ncog', 'ncog', 'vtr'])
+    ctol = rng.choice([1e-4, 1e-2]); vtol = rng.choice([0.5, 3.0, 10.0])
     def mkterm():
-        from mystic.termination import CandidateRelativeTolerance as CRT
-        return CRT(ctol, ctol) if term_kind == 'crt' else NCOG(1e-4, 2)
+        from mystic.termination import CandidateRelativeTolerance as CRT, VTR
+        return CRT(ctol, ctol) if term_kind == 'crt' else (VTR(vtol) if term_kind == 'vtr' else NCOG(1e-4, 2))
     dist = rng.choice([None, None, 'normal', 'uniform'])      # members' starting points randomised by a user-supplied Distribution (built after seeding)
     obs.desc.update(monitors=mons, restart=restart, nested_instance=instance, box=box, dist=dist, termination=term_kind)
     if dist: obs.event('sampled_from_a_distribution')
